@@ -201,10 +201,19 @@ def r3_resume_agree(ctx, rule="C05.R3"):
                    "ErrorHandler::%s edge pushes the handler context %d times (want %d): RESUME "
                    "pops exactly one" % (v, n_push, want))
         if v == "Address":
-            w = common.field_writes(interp.body, region)
+            w = set(common.field_writes(interp.body, region))
+            ipv = mir.Prov(interp.body)
+            for _b, t in mir.region_calls(interp.body, region):
+                # Option::insert / replace overwrite unconditionally, like an assignment
+                if mir.callee_path(t).split("::")[-1] in ("insert", "replace") and t["args"]:
+                    o = mir.strip_refs(ipv.of_operand(t["args"][0]))
+                    if o[0] == "field" and o[2] == "last_error_address":
+                        w.add("last_error_address")
             ctx.decide("last_error_address" in w, rule, rule + ":error-edge:Address:stores-address",
                        interp.loc, "stores last_error_address",
-                       "the handler edge no longer records the failing address for RESUME")
+                       "the handler edge does not unconditionally record the address of the failing instruction "
+                       "(no assignment / insert / replace of last_error_address): RESUME and RESUME NEXT then refer "
+                       "to an older error whose handler was left without RESUME")
     # last_error_code is set from get_code before dispatch
     got = [1 for b, t in interp.body.calls() if mir.callee_path(t).endswith("RuntimeError::get_code")]
     ctx.decide(len(got) == 1 and "last_error_code" in common.field_writes(interp.body),
